@@ -28,9 +28,12 @@ InvAddSBSmall == SmallB(b) => (IsWord(AddSBSmall(a, b)) /\ Val(Shift(AddSBSmall(
 InvAddBSmall == SmallB(b) => Rep(AddBSmall(a, b), a + b)
 InvSub == Rep(Sub(a, b), a - b)
 InvSubSBSmall == SmallB(b) => (IsWord(SubSBSmall(a, b)) /\ Val(Shift(SubSBSmall(a, b))) = (Shift(a) - b) % P)
-InvMult128P == LET m == Mult128P(p1, p2, p3, p4) IN IsWord(m.h) /\ IsWord(m.l) /\ m.h * T + m.l = p1 * T + (p2 + p3) * Phi + p4
-InvMult72P == (p2 <= (Phi - 1) * 255 /\ p4 <= (Phi - 1) * 255) => LET m == Mult72P(p2, p4) IN m.h < Phi /\ IsWord(m.l) /\ m.h * T + m.l = p2 * Phi + p4
-InvSquare128P == LET m == Square128P(p1, p2, p4) IN IsWord(m.h) /\ IsWord(m.l) /\ m.h * T + m.l = p1 * T + 2 * p2 * Phi + p4
+InvMult128P == LET m == Mult128P(a, b, p1, p2, p3, p4) IN IsWord(m.h) /\ IsWord(m.l) /\ m.h * T + m.l = p1 * T + (p2 + p3) * Phi + p4
+InvMult72P == (p2 <= (Phi - 1) * 255 /\ p4 <= (Phi - 1) * 255) => LET m == Mult72P(a, b, p2, p4) IN m.h < Phi /\ IsWord(m.l) /\ m.h * T + m.l = p2 * Phi + p4
+InvSquare128P == LET m == Square128P(a, p1, p2, p4) IN IsWord(m.h) /\ IsWord(m.l) /\ m.h * T + m.l = p1 * T + 2 * p2 * Phi + p4
+InvMult128P_512 == LET m == Mult128_512P(a, b, p1, p2, p3, p4) IN IsWord(m.h) /\ IsWord(m.l) /\ m.h * T + m.l = p1 * T + (p2 + p3) * Phi + p4
+InvMult72P_512 == (p2 <= (Phi - 1) * 255 /\ p4 <= (Phi - 1) * 255) => LET m == Mult72_512P(a, b, p2, p4) IN m.h < Phi /\ IsWord(m.l) /\ m.h * T + m.l = p2 * Phi + p4
+InvSquare128P_512 == LET m == Square128_512P(a, p1, p2, p4) IN IsWord(m.h) /\ IsWord(m.l) /\ m.h * T + m.l = p1 * T + 2 * p2 * Phi + p4
 InvReduce128 == Rep(Reduce128(a, b), a * T + b)
 InvReduce96 == a < Phi => Rep(Reduce96(a, b), a * T + b)
 InvToCanon512 == ToCanon512(a) = a % P
